@@ -44,8 +44,8 @@ NOT_MODELLED = [
     "Cython-free: bsp.py has no Cython twin",
 ]
 ASSUMPTIONS = [
-    "well-formed values: numbers stored in float fields are binary32-exact; Vec components stored in integer fields (node/leaf bounds, "
-    "cubemap origin, prop tint) are integer-valued (the writers apply int()/round()); angles are already reduced to [0,360)",
+    "well-formed values: numbers stored in float fields are binary32-exact; Vec components stored in integer fields (node/leaf bounds outside the "
+    "Chaos layout, cubemap origin, prop tint) are integer-valued (the writers apply int()/round()); angles are already reduced to [0,360)",
     "split faces (faces/hdr_faces lumps) reference an orig face and a texinfo (None is written as -1, which the reader uses as a Python "
     "index from the end); faces sharing an orig face share texinfo and hammer id; hammer ids are non-zero ints; faces and hdr_faces are "
     "position-aligned (one FACEIDS array); orig faces carry the texinfo/id of their split faces (the reader copies them over)",
@@ -976,7 +976,7 @@ def _class_probes():
         return None if got == ((0.5, 0.5, 0.5), (0.5, 1.25, 2.0)) else \
             f'Chaos layout stores node/leaf bounds as floats, but the writer applies int(): (0.5,0.5,0.5)/(0.5,1.25,2) read back as {got}'
 
-    def fixed_bytes(tmp):
+    def light_styles(tmp):
         def setup(b):
             pl = Plane(Vec(1, 0, 0), 5.0)
             b.planes = [pl]
@@ -985,7 +985,16 @@ def _class_probes():
         if c is None:
             return None
         got = c.orig_faces[0].light_styles
-        return None if got == b'\1\2\3\4\5' else f'Face.light_styles of 5 bytes silently cut to {got!r} (4s field, no length check; same for VisLeaf._ambient / 24s)'
+        return None if got == b'\1\2\3\4\5' else f'Face.light_styles of 5 bytes silently cut to {got!r} (4s field, no length check)'
+
+    def leaf_ambient(tmp):
+        def setup(b):
+            b.visleafs = [VisLeaf(BSPContents.EMPTY, 0, 0, VisLeafFlags.NONE, Vec(), Vec(), [], [], -1, bytes(range(30)))]
+        c = cycle(tmp, 'v19', setup)
+        if c is None:
+            return None
+        got = c.visleafs[0]._ambient
+        return None if got == bytes(range(30)) else f'VisLeaf._ambient of 30 bytes silently cut to {len(got)} bytes (24s field of the v19 layout, no length check)'
 
     def face_none(tmp):
         def setup(b):
@@ -1005,7 +1014,8 @@ def _class_probes():
             'split face with orig_face=None and texinfo=None is written with index -1, read back as orig_faces[-1] / texinfo[-1]'
 
     return [('ent-key-unescaped', ent_key), ('ent-output-delay-precision', out_delay), ('sprp-header-version', sprp_header),
-            ('chaos-float-bounds-truncated', chaos_bounds), ('fixed-bytes-truncated', fixed_bytes), ('face-none-refs', face_none)]
+            ('chaos-float-bounds-truncated', chaos_bounds), ('light-styles-truncated', light_styles),
+            ('leaf-ambient-truncated', leaf_ambient), ('face-none-refs', face_none)]
 
 
 # =============================================================================== search
